@@ -31,6 +31,16 @@ type checkSpec struct {
 	MaxSteps    int64             `json:"max_steps"`
 	TimeoutMs   map[string]int    `json:"timeout_ms"`
 	Samples     int               `json:"replay_samples"`
+	// OverlayGen: virtual files generated at check time from the current tree
+	// (copy of a repository file under another name, optionally with textual
+	// replacements); used for platform shims and for stubbing process creation.
+	OverlayGen []overlayGen `json:"overlay_gen"`
+}
+
+type overlayGen struct {
+	Src     string      `json:"src"`     // repo-relative source file
+	Dst     string      `json:"dst"`     // repo-relative virtual file
+	Replace [][2]string `json:"replace"` // textual replacements (each must match)
 }
 
 type knownFinding struct {
@@ -125,6 +135,31 @@ func runCheck(id, tier string, seed int64, only string) int {
 			}
 			overlay[filepath.Join("/repo", virt)] = data
 			overlayJSON[filepath.Join("/repo", virt)] = filepath.Join(verifRoot, "engine", real)
+		}
+	}
+	genDir := ""
+	if len(spec.OverlayGen) > 0 {
+		if overlay == nil {
+			overlay = map[string][]byte{}
+		}
+		genDir, _ = os.MkdirTemp("", "zsym-gen-")
+		defer os.RemoveAll(genDir)
+		for k, g := range spec.OverlayGen {
+			data, err := os.ReadFile(filepath.Join("/repo", g.Src))
+			if err != nil {
+				fatal("overlay_gen %s: %v", g.Src, err)
+			}
+			text := string(data)
+			for _, r := range g.Replace {
+				if !strings.Contains(text, r[0]) {
+					incomplete = append(incomplete, "overlay_gen: pattern not found in "+g.Src+": "+r[0])
+				}
+				text = strings.Replace(text, r[0], r[1], 1)
+			}
+			overlay[filepath.Join("/repo", g.Dst)] = []byte(text)
+			real := filepath.Join(genDir, fmt.Sprintf("gen%d.go", k))
+			os.WriteFile(real, []byte(text), 0644)
+			overlayJSON[filepath.Join("/repo", g.Dst)] = real
 		}
 	}
 	w, err := interp.Load(filepath.Join(verifRoot, "engine"), overlay, spec.Pkg)
